@@ -245,6 +245,23 @@ def _registry():
     reg('euler', 'mahotas.euler.euler', lambda g: dict(f=g.b(g.shape(2, 3))), lambda f, a: f(a['f']))
     reg('thin', 'mahotas.thin.thin', lambda g: dict(binimg=g.b(g.shape(2, 4), 0.7)), lambda f, a: f(a['binimg']))
     reg('bbox', 'mahotas.bbox.bbox', lambda g: dict(img=g.b(g.shape(g.nd((1, 2, 2, 3)), 2), 0.3)), lambda f, a: f(a['img']))
+
+    def bbox_sparse_gen(g):
+        # one to three non-zero pixels in a clearly non-square image (often near the far corner): the tight box depends on every
+        # extreme separately, so a scan that mixes up the axes of another memory order cannot hide behind a dense image
+        nd = g.r.choice([2, 2, 2, 3])
+        shp = tuple(g.r.choice([2, 3, 4, 9, 10, 13]) for _ in range(nd))
+        if nd == 2 and shp[0] == shp[1]:
+            shp = (shp[0], shp[1] + g.r.choice([3, 6]))
+        img = np.zeros(shp, g.r.choice([bool, np.uint8, np.int32, np.float64]))
+        for _ in range(g.r.choice([1, 1, 2, 3])):
+            pos = tuple(g.r.randrange(n) if g.r.random() < 0.5 else n - 1 - g.r.randrange(min(n, 2)) for n in shp)
+            img[pos] = 1
+        return dict(img=img)
+    reg('bbox_sparse', 'mahotas.bbox.bbox', bbox_sparse_gen, lambda f, a: f(a['img']))
+    for k_ in (2, 3, 4):       # more draws of the same generator (each registry entry gets its share of every layout)
+        reg(f'bbox_sparse{k_}', 'mahotas.bbox.bbox', bbox_sparse_gen, lambda f, a: f(a['img']))
+    reg('croptobbox_sparse', 'mahotas.bbox.croptobbox', bbox_sparse_gen, lambda f, a: f(a['img']))
     reg('bbox_slice', 'mahotas.bbox.bbox', lambda g: dict(img=g.b(g.shape(2, 2), 0.3)), lambda f, a: f(a['img'], as_slice=True))
     reg('croptobbox', 'mahotas.bbox.croptobbox', lambda g: dict(img=g.u8(g.shape(2, 3), 1)), lambda f, a: f(a['img']))
     reg('center_of_mass', 'mahotas.center_of_mass.center_of_mass',
